@@ -88,3 +88,13 @@ var r3Assume = []string{"A1 Badger commit atomic and durable at return", "A3 ove
 func snapArg(call *cluster.StoreCall) *common.SnapshotWithTopologicalOrder {
 	return call.Args[0].(*common.SnapshotWithTopologicalOrder)
 }
+
+func mergeComponents(ms ...map[string]string) map[string]string {
+	out := map[string]string{}
+	for _, m := range ms {
+		for k, v := range m {
+			out[k] = v
+		}
+	}
+	return out
+}
